@@ -68,6 +68,54 @@ def _float_restarts(sym, f, step_expr):
     return out
 
 
+_ROW_WALK = {}
+
+
+def _row_walk_helpers(prog):
+    """crate-local functions that call iter_rows_with_step(start, step, ..) with two of their own
+    parameters: fn id -> (index of the start parameter, index of the step parameter)"""
+    key = id(prog)
+    if key not in _ROW_WALK:
+        out = {}
+        for h in prog.fns.values():
+            if h.kind == "closure":
+                continue
+            for c in h.calls():
+                if (c.method or c.name.rsplit("::", 1)[-1]) != "iter_rows_with_step" or len(c.args) < 3:
+                    continue
+                hs = Sym(h)
+                a, b = hs.operand(c.args[1], (c.bb, "term")), hs.operand(c.args[2], (c.bb, "term"))
+                if a[0] == "param" and b[0] == "param":
+                    out[h.id] = (a[1], b[1])
+        _ROW_WALK[key] = out
+    return _ROW_WALK[key]
+
+
+def _helper_band_start(rep, prog, rule, g, c, start_op, step_op):
+    """a per-band closure (run by rayon) hands (start, step) to a row-walking helper"""
+    parent = prog.fns.get(g.d.get("parent"))
+    if parent is None:
+        return
+    par = any(re.search(r"rayon|ParallelIterator|par_iter", pc.name or "") for pc in parent.calls())
+    if not par:
+        return
+    gs = Sym(g)
+    step = gs.operand(step_op, (c.bb, "term"))
+    while isinstance(step, tuple) and step and step[0] in ("copy", "deref", "ref"):
+        step = step[1]
+    rep.touch(parent)
+    key = "%s|%s" % (g.name, (c.name or "").rsplit("::", 1)[-1])
+    hits = _float_restarts(gs, g, step)
+    if hits:
+        rep.bad(rule, key + "|restart", hits[0][1],
+                "%s: each band starts its rows at %s, recomputed by a multiplication with the band's first "
+                "row, while the sequential path accumulates y += step over all rows: the two round "
+                "differently (and the first row of a band is only right if it is the true offset of "
+                "that band), so the result depends on the number of bands" % (parent.name, fmt(hits[0][0])[:120]))
+    else:
+        rep.unk(rule, key, c.at, "band start %s not traced" % fmt(gs.operand(start_op, (c.bb, "term")))[:80])
+
+
 def float_restart(rep, prog, rule):
     rep.rule(rule, "a closure that rayon runs per band and that walks source rows with "
              "iter_rows_with_step(start, step, n) must get the start the sequential iterator would have "
@@ -81,6 +129,14 @@ def float_restart(rep, prog, rule):
             continue
         calls = [c for c in g.calls() if (c.method or c.name.rsplit("::", 1)[-1]) == "iter_rows_with_step"]
         if not calls:
+            # a helper that walks the rows for the band: `nearest_rows(src, &mut band, table, y_start, step)`
+            via = _row_walk_helpers(prog)
+            for c in g.calls():
+                for t in prog.call_targets(c):
+                    if t.id in via:
+                        ks, kp = via[t.id]
+                        if ks - 1 < len(c.args) and kp - 1 < len(c.args):
+                            _helper_band_start(rep, prog, rule, g, c, c.args[ks - 1], c.args[kp - 1])
             continue
         parent = prog.fns.get(g.d.get("parent"))
         if parent is None:
